@@ -42,10 +42,11 @@ _sf, _si = {}, {}
 def regenerate(rep):
     r = trprop.regenerate(rep, "C04", "tr/c04_drv.cpp", ["RKCOMMON_NO_SIMD"], [], OUT_OF_SCOPE, _sf,
                           "float", "vdrv_dispatch_f")
-    if r:
-        return r
-    return trprop.regenerate(rep, "C04I", "tr/c04i_drv.cpp", ["RKCOMMON_NO_SIMD"], [], OUT_OF_SCOPE, _si,
-                             "int", "vdrv_dispatch_i")
+    # (both, also when the first one failed: each loads the signatures the case generator needs - from the snapshot
+    # when the translator could not process the tree)
+    r2 = trprop.regenerate(rep, "C04I", "tr/c04i_drv.cpp", ["RKCOMMON_NO_SIMD"], [], OUT_OF_SCOPE, _si,
+                           "int", "vdrv_dispatch_i")
+    return r or r2
 
 
 PRIMES = [2, 3, 5, 7, 11, 13, 17, 19, 23, 29, 31, 37]
